@@ -168,6 +168,20 @@ TIGHT = {
     "p1e3": (1, [1e3], [[1.0]]), "p1e4": (1, [1e4], [[1.0]]),
     "pOano": (1, [200.0, 46.533367, 14.621809], [[9.173e-4], [7.37714e-3], [3.483515e-2]]),
 }
+# complete contracted core+valence s shells of published general-contraction sets (tight AND diffuse primitives in one shell)
+FULL = {
+    "sCccpvdz-full": (0, [6665.0, 1000.0, 228.0, 64.71, 21.06, 7.495, 2.797, 0.5215, 0.1596],
+                      [[6.92e-4, -1.46e-4], [5.329e-3, -1.154e-3], [2.7077e-2, -5.725e-3], [0.101718, -2.3312e-2],
+                       [0.27474, -6.3955e-2], [0.448564, -0.149981], [0.285074, -0.127262], [1.5204e-2, 0.544529],
+                       [-3.191e-3, 0.580496]]),
+    "sOano-full": (0, [105374.95, 15679.24, 3534.5447, 987.36516, 315.97875, 111.65428, 42.699451, 17.395596, 7.438309, 3.222862,
+                       1.253877, 0.495155, 0.191665, 0.067083],
+                   [[0.00012386, -0.00002815], [0.00051201, -0.0001163], [0.00215291, -0.00049092], [0.00852844, -0.00194616],
+                    [0.03018049, -0.0070053], [0.09099702, -0.02167814], [0.21779364, -0.05641213], [0.36862457, -0.1127053],
+                    [0.33667073, -0.15891197], [0.0965763, -0.03355083], [0.00214452, 0.35319028], [0.00119435, 0.55341993],
+                    [0.00053902, 0.23018391], [0.00021034, 0.01127267]]),
+    "s-core+valence": (0, [8236.0, 79.27, 0.3643], [[0.7, 0.1], [0.5, -0.4], [0.05, 1.0]]),
+}
 DIFFUSE = {"p0.3": (1, [0.3], [[1.0]]), "d0.5": (2, [0.5], [[1.0]]), "d1.2": (2, [1.2], [[1.0]]),
            "f0.7": (3, [0.7], [[1.0]]), "f2.35": (3, [2.35], [[1.0]])}
 # tight (core) pair always on one atom; the diffuse pair on the same atom, a second atom, or two other atoms
@@ -188,6 +202,18 @@ def ill_list():
                     shells = pair_t + pair_d if orient == "tight-bra" else pair_d + pair_t
                     lab = f"({tn} {tn}|{dn} {dn}) {gn}" if orient == "tight-bra" else f"({dn} {dn}|{tn} {tn}) {gn}"
                     out.append({"label": lab, "shells": shells})
+    # complete contracted s shells (tight + diffuse primitives) on ONE or on TWO atoms against polarisation shells elsewhere
+    for fn, f in FULL.items():
+        for dn in ("d0.5", "f0.7", "f2.35"):
+            dsh = DIFFUSE[dn]
+            for gn, g in (("ss-one-atom", ([0, 0, 0], [0, 0, 0], [0.0, 0.7, 1.1], [-0.9, 0.2, 0.4])),
+                          ("ss-two-atoms", ([0, 0, 0], [0.0, 0.0, 2.1], [0.9, 0.7, 1.1], [0.9, 0.7, 1.1]))):
+                for orient in ("tight-bra", "tight-ket"):
+                    pair_t = [sh(f[0], g[0], f[1], f[2]), sh(f[0], g[1], f[1], f[2])]
+                    pair_d = [sh(dsh[0], g[2], dsh[1], dsh[2]), sh(dsh[0], g[3], dsh[1], dsh[2])]
+                    shells = pair_t + pair_d if orient == "tight-bra" else pair_d + pair_t
+                    lab = f"({fn} {fn}|{dn} {dn}) {gn}" if orient == "tight-bra" else f"({dn} {dn}|{fn} {fn}) {gn}"
+                    out.append({"label": lab, "shells": shells})
     # mixed tight/diffuse pairs and equal-l tight/diffuse quartets
     for tn, dn in (("s1e4", "f0.7"), ("sOano", "d0.5"), ("p1e3", "d1.2")):
         t, dsh = TIGHT[tn], DIFFUSE[dn]
@@ -205,7 +231,8 @@ def ill_list():
 
 
 def judge_ill(case):
-    v = Verdict(nontrivial=True, classes=["tight-diffuse"])
+    v = Verdict(nontrivial=True, classes=["tight-diffuse" if "full" not in case["label"] and "core+valence" not in case["label"]
+                                          else "contracted-core+valence"])
     judge_block(v, case["shells"], label=case["label"].replace(" ", "_"), sample=int(case_hash(case), 16) % 16 == 0)
     return v
 
